@@ -174,6 +174,31 @@ def guarded_by_instance_none(f, ret, inst):
     return False
 
 
+def own_namespace_rule(run, model, cls, rule, writes_too=False):
+    """the descriptor reaches an instance's stored value through the instance's own namespace (instance.__dict__ / vars(instance)).  getattr(instance, key[, default]) is the full
+    attribute protocol instead: the class and its bases are searched and, when the key is not there yet, the class's own __getattr__ hook runs - with whatever it
+    returns (another object's value) or raises (anything but AttributeError passes the default by)"""
+    hooks = ('getattr', 'hasattr') + (('setattr', 'delattr') if writes_too else ())
+    n = 0
+    for f in cls.methods.values():
+        others = set(f.params[1:])
+        for c in ast.walk(f.node):
+            if isinstance(c, ast.Call) and isinstance(c.func, ast.Name) and c.func.id in hooks and len(c.args) >= 2 and isinstance(c.args[0], ast.Name) and c.args[0].id in others \
+                    and not isinstance(c.args[1], ast.Constant):
+                n += 1
+                if c.func.id in ('getattr', 'hasattr'):
+                    why = ('%s reads the stored value with %s: a full attribute lookup on the user\'s object. For an instance that has not been assigned yet the key is missing and the '
+                           'class\'s own __getattr__ hook answers - a proxy/parent-chain hook hands back another instance\'s value where 0 is expected, and a hook that raises anything '
+                           'but AttributeError (KeyError from a dict-backed hook) aborts the statement while __get__ still holds the lock for the coming __set__'
+                           % (f.qualname, norm(c)))
+                else:
+                    why = ('%s writes the stored value with %s: the user\'s __setattr__ hook runs between acquire and release; a hook that rejects unknown names raises there and the '
+                           'lock is never given back' % (f.qualname, norm(c)))
+                run.inst(rule, f, 'the stored value is reached through the instance\'s own namespace, not %s()' % c.func.id, False, why, node=c, obligation=True)
+    if n == 0:
+        run.inst(rule, cls.methods.get('__get__'), 'no getattr/hasattr%s on the instance with a computed key' % ('/setattr' if writes_too else ''), True, obligation=True)
+
+
 def check(run, model, tier):
     run.explanation = ('Dataflow over the descriptor protocol methods of ThreadSafeAttribute: where __set__ puts its value '
                        'argument and where each value returned by __get__ comes from must be selected by the `instance` '
@@ -186,6 +211,8 @@ def check(run, model, tier):
     s = cls.methods.get('__set__')
     if g is None or s is None or len(g.params) < 3 or len(s.params) < 3:
         raise AnalysisError('ThreadSafeAttribute.__get__/__set__ not found with descriptor signatures')
+    run.rule('DESC.own-namespace', 'the stored value is read from the instance\'s own namespace (__dict__ / vars), not through getattr: the class\'s __getattr__ hook must not answer for it')
+    own_namespace_rule(run, model, cls, 'DESC.own-namespace')
     # ---- __set__
     selfn, inst, val = s.params[0], s.params[1], s.params[2]
     sdefs = local_defs(s.node)
